@@ -51,6 +51,34 @@ CLAIMED = {
         note=CONN_NOTE + "Partial in two named respects: OS-level release of the socket is observed on a fake socket only; 'no request/handshake timer stays armed and no task stays blocked' at quiescent points is checked on the implementation (timer-heap/task audit) and by trace validation, not yet proved as a theorem about the model.",
         tech="machine-checked proof in Coq (inductive invariant + closed-state silence lemma over all labels) + trace validation and resource audit against the real APIConnection",
         ref="DESIGN.md §5 C08"),
+    "C06": dict(
+        text="Coq theorems C06_accept_iff (the hello/login decision accepts exactly: HelloResponse first with major <= 2 read from the source, name empty/expected or no expected name, and when login is on a ConnectResponse next without invalid_password), "
+             "C06_incompatible_version / bad_name / invalid_auth (specific errors), C06_success_only_if_accepted (finish_connection returns normally only through an accepted decision, uncancelled, not closed meanwhile, ending CONNECTED), "
+             "C06_no_stop_unless_connected. Tied by an exhaustive sweep (thorough; sampled in quick) of versions x names x configurations x response orders x chunkings x password set/unset on the real APIConnection with trace validation, "
+             "and of server-hello name x HelloResponse name x configuration over real Noise sessions with an independent responder; outcomes are judged by an oracle computed from the inputs alone.",
+        note=CONN_NOTE + "The name carried by BadNameAPIError and the Noise-level name check are checked on the implementation only (the model abstracts names to empty/expected/other).",
+        tech="machine-checked proof in Coq (decision function characterised by an iff; case analysis of every exit of finish_connection) + exhaustive configuration sweep with trace validation",
+        ref="DESIGN.md §5 C06"),
+    "C09": dict(
+        text="Coq theorems C09_wrapper_always_library, C09_start_classified, C09_finish_failure_classified, C09_call_outcome (every exit of start_connection / failing finish_connection / a request is a result or a library error; CancelledError only for a cancelled task), "
+             "C09_first_cause_kept, C09_waiters_get_first_cause (all pending waiters receive the error derived from the first fatal cause), C09_start_arms_timer, C09_time_respects_deadlines, C09_documented_bounds (30/60/30/30/5/10 s read from the source). "
+             "PARTIAL: the composition 'every awaited operation is complete by start + bound' is not proved as one theorem about runs; it is checked on the implementation at every quiescent point under the virtual clock together with a never-hangs audit.",
+        note=CONN_NOTE + "Awaits inside third-party libraries (aiohappyeyeballs, zeroconf, getaddrinfo) are inputs that may complete with any outcome or never.",
+        tech="machine-checked proof in Coq (case analysis of every task exit; first-cause lemmas) + trace validation, completion-time and hang audit on the real APIConnection; partial (bounded-time composition is tested, not proved)",
+        ref="DESIGN.md §5 C09"),
+    "C10": dict(
+        text="Coq theorems C10_ping_iff_idle, C10_dead_exactly (death exactly 4.5K after the first ping since the last message, hence between 5.5K and 6.5K after the last message), C10_obs_sources, C10_arrival_disarms, C10_all_runs about Model/Keepalive.v: "
+             "a mirror of the keepalive trio for ARBITRARY K = 2h and the ratio read from the source, with an inductive invariant over every event sequence (arrivals, both timers, time moving up to the next deadline). "
+             "Tied by running the extracted scheduler and the real APIConnection under the virtual clock on the same arrival schedules (7 keepalive values, grids, tick/deadline edges, chatty and silent peers); both must equal a closed-form oracle.",
+        note=COMMON_NOTE + "Exact virtual time (multiples of 2^-10 s) instead of float loop time; arrivals exactly at a timer instant are excluded from the differential runs (the model serves arrivals first).",
+        tech="machine-checked proof in Coq (inductive invariant with ghost history, linear arithmetic) + model/implementation correspondence on timestamps",
+        ref="DESIGN.md §5 C10"),
+    "C11": dict(
+        text="Coq theorems C11_collects (for ANY message stream the call holds the accepted messages in arrival order up to and including the first stop message, done iff a stop message arrived), C11_done_ignores_later, "
+             "C11_handler_is_call_step, C11_no_interference, C11_finally_always_runs, C11_finally_leaves_nothing (no handler, waiter or timer), C11_outcome, C11_time_respects_deadlines, C11_timeout_due_iff about Model/Conn.v. "
+             "Tied by trace validation; per call the result list / error class / timeout instant are judged on the implementation by an oracle from the labels, with a handler/timer/waiter leftover audit at every quiescent point.",
+        note=CONN_NOTE, tech="machine-checked proof in Coq (induction over the message stream; finally-block lemmas) + trace validation and leftover audit on the real APIConnection",
+        ref="DESIGN.md §5 C11"),
     "C12": dict(
         text="Coq theorems C12_known_type_dispatched (deliveries of one packet = the subscribers in the snapshot of the handler table at dispatch start, each once, whatever re-entrant scripts do), "
              "C12_dispatch_prefix_on_error, C12_unknown_type_ignored + C12_registered_iff (every type number outside 1..n, unbounded, has no effect), C12_bad_payload_closes (protocol error, first cause kept, nothing delivered), "
